@@ -2,11 +2,14 @@ package main
 
 import (
 	"crypto/sha256"
+	"encoding/json"
 	"fmt"
 	"go/ast"
 	"go/token"
 	"go/types"
 	"os"
+	"os/exec"
+	"path/filepath"
 	"sort"
 	"strings"
 
@@ -186,6 +189,100 @@ func runC07(e *env) {
 			}
 		}
 		e.m.sample(map[string]interface{}{"module": spec.Name, "targets": targets, "repetitions": reps + 3})
+	}
+	c07CLI(e)
+}
+
+// c07CLI: the command in configuration mode (cmd/gomacro.go:Config.run ranges over the configuration map to list the
+// files): several source files of different packages, each with its own outputs, generated in N fresh processes; every
+// output file must have one content. The formatters are kept out of the way (stand-in tools that are absent).
+func c07CLI(e *env) {
+	dir := scratchDir("c07cli")
+	bin := filepath.Join(dir, "gomacro")
+	build := exec.Command("go", "build", "-o", bin, "./cmd")
+	build.Dir = "/repo"
+	build.Env = os.Environ()
+	if outb, err := build.CombinedOutput(); err != nil {
+		e.m.fail(oracleFailure{What: "the command does not build: " + string(outb), Input: "go build ./cmd", NoInput: true})
+		return
+	}
+	mod := filepath.Join(dir, "mod")
+	writeFile(filepath.Join(mod, "go.mod"), "module example.com/org/shop\n\ngo 1.21\n")
+	pkgs := []string{"alpha", "beta", "gamma", "delta"}
+	conf := map[string][]map[string]string{}
+	var outputs []string
+	for i, p := range pkgs {
+		src := fmt.Sprintf("package %s\n\ntype Id%s int64\n\ntype Kind%d int\n\nconst (\n\tK%dA Kind%d = iota\n\tK%dB\n)\n\n// gomacro:SQL ADD UNIQUE(Name)\ntype %s struct {\n\tId Id%s\n\tName string\n\tKind Kind%d\n\tTags []string\n}\n",
+			p, strings.Title(p), i, i, i, i, strings.Title(p), strings.Title(p), i)
+		file := filepath.Join(mod, p, p+".go")
+		writeFile(file, src)
+		var acts []map[string]string
+		for _, mo := range []struct{ mode, ext string }{{"sql", ".sql"}, {"typescript/types", ".ts"}, {"go/randdata", "_rand.go"}} {
+			out := filepath.Join(dir, "out", p+mo.ext)
+			acts = append(acts, map[string]string{"Mode": mo.mode, "Output": out})
+			outputs = append(outputs, out)
+		}
+		conf[file] = acts
+	}
+	cb, _ := json.Marshal(conf)
+	confFile := filepath.Join(dir, "conf.json")
+	writeFile(confFile, string(cb))
+	fake := filepath.Join(dir, "fakebin")
+	os.MkdirAll(fake, 0o755)
+	writeFile(filepath.Join(fake, "npx"), "#!/bin/sh\nexit 1\n")
+	os.Chmod(filepath.Join(fake, "npx"), 0o755)
+	goDir := ""
+	if p, err := exec.LookPath("go"); err == nil {
+		goDir = filepath.Dir(p)
+	}
+	runs := 8
+	if e.thorough() {
+		runs = 40
+	}
+	contents := map[string]map[string]bool{}
+	for r := 0; r < runs; r++ {
+		os.RemoveAll(filepath.Join(dir, "out"))
+		os.MkdirAll(filepath.Join(dir, "out"), 0o755)
+		cmd := exec.Command(bin, "-config", confFile)
+		cmd.Dir = mod
+		env := []string{"PATH=" + fake + ":" + goDir + ":/usr/bin:/bin", "HOME=" + os.Getenv("HOME")}
+		for _, kv := range os.Environ() {
+			if strings.HasPrefix(kv, "GO") {
+				env = append(env, kv)
+			}
+		}
+		cmd.Env = env
+		outb, err := cmd.CombinedOutput()
+		if err != nil {
+			e.m.fail(oracleFailure{What: "the command failed in configuration mode: " + tail(string(outb), 800), Input: map[string]interface{}{"config": conf}})
+			return
+		}
+		for _, o := range outputs {
+			b, rerr := os.ReadFile(o)
+			c := string(b)
+			if rerr != nil {
+				c = "<missing>"
+			}
+			if contents[o] == nil {
+				contents[o] = map[string]bool{}
+			}
+			contents[o][c] = true
+		}
+	}
+	for _, o := range outputs {
+		e.m.Evaluations++
+		e.m.OracleRuns++
+		e.m.Nontrivial++
+		e.m.count("cli_config_output")
+		if len(contents[o]) > 1 {
+			var texts []string
+			for t := range contents[o] {
+				texts = append(texts, t)
+			}
+			sort.Strings(texts)
+			e.m.fail(oracleFailure{What: fmt.Sprintf("configuration mode: %d different contents for %s over %d processes", len(texts), filepath.Base(o), runs),
+				Input: map[string]interface{}{"config": conf, "output": o}, Expect: firstDiff(texts[0], texts[1])})
+		}
 	}
 }
 
